@@ -9,15 +9,22 @@ EXTENDS ConvertGraphDefs, TLC, Json, IOUtils, SequencesExt
 
 CONSTANTS Stride, Phase
 
-Always == {0, 7, 2047}
+(* masks every head is tried with in the sample: nothing, everything, and the minimal /    *)
+(* competing derivations (positions = 7, beams = 24, L1+L2 = 96, Ltotal = 128,              *)
+(* two_theta = 256, incident_energy = 512, final_energy = 1024)                             *)
+Always == {0, 7, 2047, 24, 31, 96, 128, 256, 384, 7 + 24, 7 + 96, 7 + 384, 24 + 384,
+           7 + 512, 7 + 1024, 7 + 1536, 96 + 512, 96 + 1024}
 
 OIdx(o) == CASE o = "tof" -> 0 [] o = "wavelength" -> 1 [] o = "energy" -> 2 [] o = "Q" -> 3
 TSeq == SetToSeq(Targets)
 TIdx(t) == CHOOSE i \in 1..Len(TSeq) : TSeq[i] = t
 
-Sel(c) == \/ Stride = 1
-          \/ c.m \in Always
-          \/ (c.m + 5 * OIdx(c.o) + 11 * TIdx(c.t) + (IF c.s THEN 3 ELSE 0) + (IF c.x THEN 17 ELSE 0)) % Stride = Phase
+AllHeads == { h \in [o : Origins, t : Targets, s : BOOLEAN, x : BOOLEAN] :
+                IsConfig([o |-> h.o, t |-> h.t, s |-> h.s, x |-> h.x, m |-> 0]) }
+
+Offset(h) == 5 * OIdx(h.o) + 11 * TIdx(h.t) + (IF h.s THEN 3 ELSE 0) + (IF h.x THEN 17 ELSE 0)
+SelMasks(h) == IF Stride = 1 THEN 0..2047
+               ELSE Always \cup { m \in 0..2047 : (m + Offset(h)) % Stride = Phase }
 
 Expect(c) ==
     LET tag == ReportedTag(c)
@@ -26,11 +33,14 @@ Expect(c) ==
          mode |-> DeducedMode(c), tag |-> tag, outcome |-> out,
          optional |-> RefusalOptional(c),
          prov |-> IF out = "ok" THEN Prov(Rules(tag), Present(c), c.t)
-                  ELSE IF RefusalOptional(c) /\ Derivable(Rules("beamline"), Present(c), c.t)
-                       THEN Prov(Rules("beamline"), Present(c), c.t)
+                  ELSE IF RefusalOptional(c) /\ Derivable(Rules(AltTag(c)), Present(c), c.t)
+                       THEN Prov(Rules(AltTag(c)), Present(c), c.t)
                   ELSE [ n \in {} |-> "" ] ]
 
-Cases == { c \in Configs : Sel(c) }
+(* (a big UNION is quadratic in TLC, a filtered record set is not: the complete space is    *)
+(* taken as the filtered set Configs, only the sample is assembled head by head)            *)
+Cases == IF Stride = 1 THEN Configs
+         ELSE UNION { { [o |-> h.o, t |-> h.t, s |-> h.s, x |-> h.x, m |-> m] : m \in SelMasks(h) } : h \in AllHeads }
 
 ASSUME ndJsonSerialize(IOEnv.OUT_FILE, SetToSeq({ Expect(c) : c \in Cases }))
 ASSUME PrintT(<<"EMITTED", Cardinality(Cases)>>)
